@@ -82,6 +82,7 @@ type Exec struct {
 	entryGuard string
 	rets []inlineRet
 	paramArgs map[*ssa.Parameter]ssa.Value
+	resolving map[string]bool
 }
 
 type unsupported struct{ msg string }
@@ -611,6 +612,9 @@ func (x *Exec) loopEntry(li *loopInfo, phiVal func(*ssa.Phi, func(*ssa.BasicBloc
 	// `opt counter i`: an unbounded iteration counter is assumed not to reach 2^62
 	if x.fc != nil {
 		for _, cn := range splitList(x.fc.Opts["counter"]) {
+			if a, ok := x.alias[cn]; ok {
+				cn = a
+			}
 			for _, phi := range phis {
 				if phi.Comment == cn {
 					e.assume(x.guard, fmt.Sprintf("(< %s 4611686018427387904)", x.vals[phi].T))
@@ -1332,6 +1336,13 @@ func (x *Exec) pureApply(fn *ssa.Function, id string) {
 		binders[p.Name()] = Val{T: vn, Sort: s, GT: p.Type()}
 		qs = append(qs, fmt.Sprintf("(%s %s)", vn, s))
 		as = append(as, vn)
+	}
+	for o, n := range nameAliases(shortName(fn), fn) { // parameters renamed since the contract was written
+		if v, ok := binders[n]; ok {
+			if _, taken := binders[o]; !taken {
+				binders[o] = v
+			}
+		}
 	}
 	app := fmt.Sprintf("(%s %s %s)", f, id, strings.Join(as, " "))
 	for _, c := range fc.Ensures {
